@@ -847,6 +847,8 @@ func (x *Exec) opaqueMethod(fr *frame, tag string, cc *ssa.CallCommon, iv Agg) V
 	case "Error", "String":
 		x.Stubs["opaque."+cc.Method.Name()] = true
 		return x.stringConst("<" + tag + ">")
+	case "Close":
+		return core.Zero(tIface)
 	}
 	x.unsupported("method " + cc.Method.Name() + " on opaque value " + tag)
 	return nil
